@@ -3,7 +3,7 @@ commentStmtEx, commentFunc; the cb.comments backup/restore discipline of the com
 cl/compile.go loadFuncBody / lazy function loading).
 
 A  Props/C09.v : C09_directive_maps_first_line (all packages whose doc comments are adjacent), C09_stmts_anchored,
-   C09_go_line_of_anchored, C09_tags_exact, C09_every_statement_emitted, C09_compile_total, C09_directive_file_resolves,
+   C09_go_line_of_anchored, C09_tags_exact, C09_every_statement_emitted, C09_all_functions_emitted, C09_compile_total, C09_directive_file_resolves,
    C09_directive_maps_first_line_refuted_without_guard (block-comment doc of a local declaration)
 B  K-diff, two sided, on generated multi-file packages (one `go build`, one run):
    (shape)    per emitted function, the sequence of //line directives, doc lines and code lines of the Go text
